@@ -6,10 +6,14 @@ Consolidate/Restore call of every operation sequence the scheduler can issue on 
 against the declarative truth of spec/NodeAcct.tla (C14_Node*).
 Statement / job / queue level (module Stmt, st_stmt.py, when present): C14_*Obs predicates on the
 projections recorded from a real framework.Statement on a real framework.Session.
+Real cycles, every simulation step (module NodeAcctCycleTrace, st_cycleacct.py): the NodeInfo of every node of
+the session after every Statement hook event of the real actions / solvers, judged by the same C14_Node*
+predicates against entries recomputed from the job side of the session.
 """
 import os
 
 import st_cluster
+import st_cycleacct
 import st_nodeacct
 
 LEVEL = "model_checking"
@@ -28,6 +32,11 @@ def run(ctx):
     stages = [lambda: st_nodeacct.run_stage(ctx, PREFIXES)]
     if stmt is not None:
         stages.append(lambda: stmt.run_stage(ctx, PREFIXES))
+    # node accounting DURING real cycles: after every virtual operation the real actions and solvers issue
+    k = 1 if ctx.quick else 10
+    cycle_plan = [("mixed", 120 * k), ("fraction", 100 * k), ("sharers", 100 * k), ("elastic", 80 * k), ("full", 80 * k),
+                  ("abandon", 80 * k), ("frag", 60 * k), ("bindfail", 60 * k), ("reclaim2", 60 * k)]
+    stages.append(lambda: st_cycleacct.run_stage(ctx, PREFIXES, cycle_plan, procs=6))
     import vlib
     vlib.run_parallel(stages)      # independent stages (node level, statement level)
     # snapshot construction: the freshly opened session of every real cycle (real SchedulerCache snapshot of the
@@ -43,6 +52,9 @@ def replay(ctx, obj):
         return
     if rep.get("module") == st_nodeacct.TRACE:
         st_nodeacct.replay_stage(ctx, obj, PREFIXES)
+        return
+    if rep.get("module") == st_cycleacct.TRACE:
+        st_cycleacct.replay_stage(ctx, obj, PREFIXES)
         return
     stmt = _st_stmt()
     if stmt is None:
